@@ -4550,6 +4550,11 @@ class PyCdlib:
                 abs_offset = abs_extent_loc * self.logical_block_size + offset
             elif isinstance(record, udfmod.UDFFileEntry):
                 abs_offset = record.extent_location() * self.logical_block_size
+            elif isinstance(record, eltorito.EltoritoEntry):
+                # The El Torito entry of a boot file lives in the boot
+                # catalog and only says where the file is and how much of
+                # it to load; neither changes here.
+                continue
             else:
                 # This should never happen
                 raise pycdlibexception.PyCdlibInternalError('Invalid record type')
